@@ -17,6 +17,20 @@ namespace
 {
 static const char *const kStaticKeys[6] = {"static-key-0", "static-key-1", "sk2", "", "static key with spaces and \"quotes\"", "k7"};
 
+// a copy of a key placed at a chosen misalignment (0..3): hashing and comparing must not depend on where the caller's bytes live
+struct KeyAt
+{
+	std::vector<char> b;
+	const char *p;
+	KeyAt(const std::string &k, size_t off) : b(k.size() + 1 + 8, '\0')
+	{
+		off %= 4;
+		memcpy(b.data() + off, k.data(), k.size());
+		b[off + k.size()] = '\0';
+		p = b.data() + off;
+	}
+};
+
 struct C06 : Property
 {
 	const char *id() const override { return "C06"; }
@@ -25,7 +39,7 @@ struct C06 : Property
 	int recycle_every() const override { return 400; } // a new worker process (and hash seed) every 400 runs
 	std::string rule() const override
 	{
-		return "seeded histories (<=60 ops). Layer O: json_object_object_add / add_ex(KEY_IS_NEW, CONSTANT_KEY) / del / get_ex / length over a pool of 70 keys (incl. empty, 300-byte, "
+		return "seeded histories (<=60 ops). Layer O: json_object_object_add / add_ex(KEY_IS_NEW, CONSTANT_KEY) / del / get_ex / length over a pool of 72 keys passed at every pointer alignment (incl. empty, 300-byte, lengths 10/11/22/23, "
 		       "odd-byte and static keys), hash function DFLT (process seed from the seed seam, a new seed every 400 runs) or PERLLIKE, delete-while-iterating; layer L: "
 		       "lh_table_new(size 1..8) with constant / first-byte / seeded caller hashes, put / delete / lookup / explicit resize. Odd run indices attach allocation failures. "
 		       "A run is non-trivial if it re-inserted a deleted key, replaced a value, grew the table or had an op refused; distinct = distinct sets of "
@@ -40,7 +54,7 @@ struct C06 : Property
 	{
 		return {"O.replace_keeps_position", "O.reinsert_after_delete_goes_last", "O.delete_absent_key", "O.growth_with_tombstones", "O.delete_current_key_in_foreach", "O.add_ex_key_is_new",
 		        "O.add_ex_constant_key", "O.empty_key", "O.long_key", "O.perllike_hash", "O.default_hash", "O.alloc_failure_leaves_map_unchanged", "L.table_size_1", "L.constant_hash_all_collide",
-		        "L.explicit_resize", "L.tombstone_reuse", "L.alloc_failure_leaves_map_unchanged", "seed_source_consulted"};
+		        "L.explicit_resize", "L.tombstone_reuse", "L.alloc_failure_leaves_map_unchanged", "seed_source_consulted", "O.delete_current_member_in_visitor"};
 	}
 	std::map<std::string, int64_t> cfg_defaults() const override { return {{"perllike", 0}}; }
 
@@ -61,8 +75,11 @@ struct C06 : Property
 		v.push_back(std::string(300, 'L'));
 		v.push_back("a/b~c\"d\\e");
 		v.push_back("\x01\x7f\xc3\xa9\xff");
-		v.push_back("k");
-		v.push_back("kk");
+		// lengths 10, 11, 22, 23 (the default hash reads keys in 12-byte blocks with alignment-dependent tails)
+		v.push_back("abcdEFghij");
+		v.push_back("abcdEFghijk");
+		v.push_back("0123456789abABcdCDefgh");
+		v.push_back("0123456789abABcdCDefghi");
 		v.push_back("K0");
 		v.push_back(" ");
 		for (int i = 0; i < 6; i++)
@@ -86,12 +103,12 @@ struct C06 : Property
 		}
 		int nops = (int)r.range(4, 60);
 		// swarm: per-run key subset size (small => churn on few keys, large => growth)
-		int nkeys = (int)r.pick(std::vector<int>{3, 6, 12, 25, 70});
-		int key_off = (int)r.below(70);
+		int nkeys = (int)r.pick(std::vector<int>{3, 6, 12, 25, 72});
+		int key_off = (int)r.below(72);
 		for (int i = 0; i < nops; i++)
 		{
 			Op op;
-			int64_t key = (key_off + (int64_t)r.below((uint64_t)nkeys)) % 70;
+			int64_t key = (key_off + (int64_t)r.below((uint64_t)nkeys)) % 72;
 			switch (r.below(12))
 			{
 			case 0:
@@ -103,7 +120,7 @@ struct C06 : Property
 			case 6:
 			case 7: op.kind = "del"; op.a = {key}; break;
 			case 8: op.kind = "get"; op.a = {key}; break;
-			case 9: op.kind = "iterdel"; op.a = {(int64_t)r.below(8), (int64_t)r.below(3)}; break;
+			case 9: op.kind = r.chance(1, 3) ? "visitdel" : "iterdel"; op.a = {(int64_t)r.below(8), (int64_t)r.below(3)}; break;
 			case 10: op.kind = layer == 1 ? "resize" : "add"; op.a = {layer == 1 ? (int64_t)r.range(1, 40) : key, (int64_t)r.below(6)}; break;
 			default: op.kind = "add"; op.a = {key, (int64_t)r.below(6)}; break;
 			}
@@ -149,6 +166,30 @@ struct C06 : Property
 		return JSON_C_VISIT_RETURN_CONTINUE;
 	}
 
+	struct VisitDel
+	{
+		Seq seq;
+		struct json_object *root;
+		size_t first, stride, i = 0;
+	};
+	static int visit_del_cb(json_object *jso, int flags, json_object *parent, const char *key, size_t *, void *arg)
+	{
+		VisitDel *a = (VisitDel *)arg;
+		if (parent != a->root || (flags & JSON_C_VISIT_SECOND))
+			return JSON_C_VISIT_RETURN_CONTINUE;
+		{
+			HarnessScope hs;
+			a->seq.push_back({key ? key : "<null>", jso});
+		}
+		size_t i = a->i++;
+		if (i >= a->first && (i - a->first) % a->stride == 0)
+		{
+			json_object_object_del(parent, key);
+			return JSON_C_VISIT_RETURN_SKIP;
+		}
+		return JSON_C_VISIT_RETURN_CONTINUE;
+	}
+
 	static std::string seq_str(const Seq &s)
 	{
 		std::string o;
@@ -163,10 +204,12 @@ struct C06 : Property
 		if (n != (int)model.size())
 			ctx.fail("C06:length-mismatch", "op %zu (%s): length %d, model %zu", oi, after, n, model.size());
 		// lookups of every key of the pool, live or not
+		size_t kidx = 0;
 		for (auto &k : pool)
 		{
 			struct json_object *v = (struct json_object *)0x1;
-			int found = LIB(json_object_object_get_ex(obj, k.c_str(), &v));
+			KeyAt ka(k, oi + kidx++);
+			int found = LIB(json_object_object_get_ex(obj, ka.p, &v));
 			const Pair *m = nullptr;
 			for (auto &pr : model)
 				if (pr.key == k)
@@ -311,16 +354,18 @@ struct C06 : Property
 				if (pool[ki].size() >= 300)
 					ctx.probe("O.long_key");
 				std::string scratch_key = keyp; // ordinary keys are passed from a buffer that is overwritten afterwards: json-c must copy
-				std::vector<char> keybuf(scratch_key.begin(), scratch_key.end());
-				keybuf.push_back('\0');
-				const char *passed = (opts & JSON_C_OBJECT_ADD_CONSTANT_KEY) ? keyp : keybuf.data();
+				std::vector<char> keybuf(scratch_key.size() + 8, '\0');
+				size_t koff = (size_t)(oi + ki) % 4; // ... and that sits at an arbitrary alignment
+				memcpy(keybuf.data() + koff, scratch_key.data(), scratch_key.size());
+				keybuf.resize(koff + scratch_key.size() + 1);
+				const char *passed = (opts & JSON_C_OBJECT_ADD_CONSTANT_KEY) ? keyp : keybuf.data() + koff;
 				arm_faults(op, ctx);
 				int rc = LIB(json_object_object_add_ex(obj, passed, np.val, opts));
 				bool fired = g_alloc.fired > 0;
 				tally_faults(ctx);
 				disarm_faults();
 				if (!(opts & JSON_C_OBJECT_ADD_CONSTANT_KEY))
-					for (size_t b = 0; b + 1 < keybuf.size(); b++)
+					for (size_t b = koff; b + 1 < keybuf.size(); b++)
 						keybuf[b] = '#'; // the caller's buffer is reused
 				if (rc == 0)
 				{
@@ -380,7 +425,10 @@ struct C06 : Property
 				for (size_t i = 0; i < model.size(); i++)
 					if (model[i].key == pool[ki])
 						pos = (long)i;
-				LIBV(json_object_object_del(obj, pool[ki].c_str()));
+				{
+					KeyAt ka(pool[ki], oi + 1);
+					LIBV(json_object_object_del(obj, ka.p));
+				}
 				if (pos >= 0)
 				{
 					if (model[(size_t)pos].val)
@@ -442,6 +490,48 @@ struct C06 : Property
 				if (!to_delete.empty())
 				{
 					ctx.probe("O.delete_current_key_in_foreach");
+					ctx.nontrivial = true;
+				}
+				cov += to_delete.empty() ? "|none" : "|deleted";
+			}
+			else if (op.kind == "visitdel")
+			{
+				// the visitor deletes the member it is looking at (and says SKIP so json-c does not descend into it):
+				// every other live key must still be visited, in order
+				size_t first = model.empty() ? 0 : (size_t)(op.arg(0) < 0 ? -op.arg(0) : op.arg(0)) % model.size();
+				int stride = (int)(op.arg(1) % 3) + 1;
+				VisitDel vd;
+				vd.root = obj;
+				vd.first = first;
+				vd.stride = (size_t)stride;
+				Seq expect_visit;
+				std::vector<std::string> to_delete;
+				for (size_t i = 0; i < model.size(); i++)
+				{
+					expect_visit.push_back({model[i].key, model[i].val});
+					if (i >= first && (i - first) % (size_t)stride == 0)
+						to_delete.push_back(model[i].key);
+				}
+				int rc = LIB(json_c_visit(obj, 0, visit_del_cb, &vd));
+				if (rc < 0)
+					ctx.fail("C06:visit-failed", "op %zu: json_c_visit returned %d", oi, rc);
+				if (vd.seq != expect_visit)
+					ctx.fail("C06:delete-during-visit-disturbs-iteration", "op %zu: visit with deletion of the current member saw [%s], expected [%s]", oi, seq_str(vd.seq).c_str(),
+					         seq_str(expect_visit).c_str());
+				for (auto &k : to_delete)
+					for (size_t i = 0; i < model.size(); i++)
+						if (model[i].key == k)
+						{
+							if (model[i].val)
+								expect_destroyed.push_back(model[i].id);
+							model.erase(model.begin() + (long)i);
+							ever_deleted.insert(k);
+							tomb_estimate++;
+							break;
+						}
+				if (!to_delete.empty())
+				{
+					ctx.probe("O.delete_current_member_in_visitor");
 					ctx.nontrivial = true;
 				}
 				cov += to_delete.empty() ? "|none" : "|deleted";
